@@ -177,6 +177,25 @@ class Program:
         raise Unsupported("zero of kind %s" % k)
 
 
+def select_chain(cont, idx, bits):
+    """ite chain for cont[idx]; concrete tables use their most common value as the default arm"""
+    n = len(cont)
+    if n > 8 and not any(is_sym(e) for e in cont):
+        cnt = {}
+        for e in cont:
+            cnt[e] = cnt.get(e, 0) + 1
+        dflt = max(cnt, key=cnt.get)
+        res = dflt
+        for i in range(n - 1, -1, -1):
+            if cont[i] != dflt:
+                res = ite(idx == i, cont[i], res, bits)
+        return res
+    res = cont[n - 1]
+    for i in range(n - 2, -1, -1):
+        res = ite(idx == i, cont[i], res, bits)
+    return res
+
+
 def copyval(v):
     if type(v) is list:
         return [copyval(x) for x in v]
@@ -277,6 +296,7 @@ class Stats:
         self.solver_time = 0.0
         self.instrs = 0
         self.unknown = 0
+        self.cache_hits = 0
 
 
 class Executor:
@@ -289,8 +309,9 @@ class Executor:
         self.icpt = intercepts
         self.opts = opts
         self.globals = LazyGlobals(init_globals) if init_globals is not None else None
-        self.solver = z3.Solver()
+        self.solver = z3.SolverFor("QF_BV") if opts.get("qfbv", True) else z3.Solver()
         self.solver.set("timeout", opts.get("branch_timeout_ms", 20000))
+        self.model = None
         self.pc = []
         self.prefix = []
         self.trace = []
@@ -323,6 +344,7 @@ class Executor:
             self.solver.push()
             self.solver.add(extra)
         r = self.solver.check()
+        self.last_model = self.solver.model() if r == z3.sat else None
         if extra is not None:
             self.solver.pop()
         self.stats.solver_time += time.time() - t0
@@ -344,19 +366,28 @@ class Executor:
             self.add_pc(conds[k])
             return k
         feas = []
+        models = {}
         n = len(conds)
+        m = self.model
         for k, c in enumerate(conds):
             if c is True:
                 feas.append(k)
+                models[k] = m
             elif c is False:
                 continue
+            elif m is not None and z3.is_true(m.eval(c, model_completion=True)):
+                feas.append(k)
+                models[k] = m
+                self.stats.cache_hits += 1
             elif exhaustive and k == n - 1 and not feas:
                 feas.append(k)
             elif self.check(c) != z3.unsat:
                 feas.append(k)
+                models[k] = self.last_model
         if not feas:
             raise PathEnd("infeasible")
         k = feas[0]
+        self.model = models.get(k)
         for alt in feas[1:]:
             self.newwork.append(self.trace + [alt])
         self.trace.append(k)
@@ -393,8 +424,12 @@ class Executor:
         if len(self.trace) < len(self.prefix):
             self.add_pc(c)   # replaying a known-feasible prefix
             return
+        if self.model is not None and z3.is_true(self.model.eval(c, model_completion=True)):
+            self.add_pc(c)
+            return
         if self.check(c) == z3.unsat:
             raise PathEnd("assume")
+        self.model = self.last_model
         self.add_pc(c)
 
     # ---------------------------------------------------------------- symbols
@@ -497,10 +532,7 @@ class Executor:
         n = len(cont)
         if t["kind"] == "int":
             bits = t["bits"]
-            res = cont[n - 1]
-            for i in range(n - 2, -1, -1):
-                res = ite(idx == i, cont[i], res, bits)
-            return res
+            return select_chain(cont, idx, bits)
         if t["kind"] == "bool":
             res = cont[n - 1]
             for i in range(n - 2, -1, -1):
@@ -879,6 +911,7 @@ class Executor:
         if r[0] == "unknown":
             raise PathEnd("unknown", "solver unknown on assertion " + label)
         self.add_pc(cond)
+        self.model = None
 
     def finish_panic(self, e):
         r = self.check()
@@ -1343,11 +1376,7 @@ def op_lookup(ex, g, fr, i):
 
 
 def _sel_bytes(s, idx):
-    n = len(s)
-    res = s[n - 1]
-    for k in range(n - 2, -1, -1):
-        res = ite(idx == k, s[k], res, 8)
-    return res
+    return select_chain(s, idx, 8)
 
 
 def op_makechan(ex, g, fr, i):
